@@ -66,6 +66,7 @@ def generic_runner(P, exe, model_ok, rng, tier, replay=None):
     nontrivial = set()
     dist = {}
     compared = 0
+    certs = {}
     for sid, lines in scns:
         si = impl.get(sid)
         if si is None:
@@ -103,10 +104,20 @@ def generic_runner(P, exe, model_ok, rng, tier, replay=None):
                     sid, li, cmd, sec, " ".join(a or ["<none>"])[:160], " ".join(b or ["<none>"])[:160]))
                 if first_div is None:
                     first_div = text_of[sid]
+            # certificates evaluated by the model driver (each has a Lean soundness theorem):
+            # a rejected certificate is a failure of the property clause it certifies
+            for key, (want, clause, what) in P.get("model_certs", {}).items():
+                for mc in (sm.calls if sm else []):
+                    if key in mc.O:
+                        certs[key] = certs.get(key, 0) + 1
+                        if mc.O[key] != [want]:
+                            fails.append(dict(clause=clause, cause="other", witness="scenario %s call %d: %s" % (sid, mc.li, what), scenario_text=text_of[sid]))
         for tag in P.get("tags", lambda s: [])(si):
             dist[tag] = dist.get(tag, 0) + 1
         if P.get("nontrivial", lambda s: True)(si):
             nontrivial.add(scn_digest(lines))
+    if certs:
+        dist.update({"cert:" + k: v for k, v in certs.items()})
     if not model_ok and P.get("model", True):
         corr_broken.append("model driver not available (Lean build failed)")
     if mnotes:
@@ -265,7 +276,7 @@ FLOW_TB = ["Float execution of the model (Lean runtime + libm) assumed IEEE bina
            "order laws of finite binary64 (strict weak order, x < nextUp x) assumed; proved for no concrete float type",
            "topology handed to the flow model is the real grid's neighbour lists (tied to the grid model in C07/C18)"]
 
-register("C01", lean_modules=['FsModel.PFlood', 'FsModel.Descent', 'FsModel.C01', 'FsModel.Tilt'], theorems=['Fs.pflood_parent', 'Fs.pflood_complete', 'Fs.step_wf', 'Fs.C01.C01_pflood_single', 'Fs.Tilt.tilt_descends'], gen=gen_resolved, oracles=[oracle.c01], cause=oracle.c01_cause,
+register("C01", lean_modules=['FsModel.PFlood', 'FsModel.Descent', 'FsModel.Tilt', 'FsProofs.Properties.C01'], theorems=['Fs.C01.C01_pflood_singleRouter', 'Fs.C01.pflood_terminates', 'Fs.pflood_parent', 'Fs.pflood_complete', 'Fs.step_wf', 'Fs.Tilt.tilt_descends'], gen=gen_resolved, oracles=[oracle.c01], cause=oracle.c01_cause,
          sections={"elev", "update"} | GRAPH_SECTIONS, nontrivial=raised_or_rerouted, tags=tags_flow,
          rule="random grids (raster 3 connectivities/border mixes, profile, mesh) x elevation families (ties, plateaus, zero, subnormal, huge, nested cones) x masks x base-level sets x six resolver variants [+ multi router]; non-trivial = at least one node was raised by the resolver",
          trusted_base=FLOW_TB)
@@ -273,22 +284,26 @@ register("C02", lean_modules=["FsModel.PFlood", "FsProofs.Properties.C02"],
          theorems=["Fs.C02.pflood_ge_input", "Fs.C02.pflood_fixed", "Fs.C02.pflood_ge_spill", "Fs.C02.pflood_le_spill", "Fs.C02.run_erase", "Fs.C02.ubInit_erase", "Fs.C02.ubInit_inv", "Fs.pflood_parent", "Fs.pflood_complete"], gen=gen_resolved, oracles=[oracle.c02], sections={"elev"}, nontrivial=raised_or_rerouted, tags=tags_flow,
          rule="same scenario family as C01; oracle = independent Bellman minimax spill level; non-trivial = some node raised",
          trusted_base=FLOW_TB)
-register("C03", lean_modules=["FsProofs.Properties.C03"], theorems=["Fs.C03.accumulate_recurrence", "Fs.C03.sweep_recurrence", "Fs.C03.accStep_get", "Fs.C03.contrib_nonneg"],
+register("C03", lean_modules=["FsProofs.Properties.C03", "FsProofs.Properties.C03Cons"], theorems=["Fs.C03.accumulate_recurrence", "Fs.C03.sweep_recurrence", "Fs.C03.accStep_get", "Fs.C03.contrib_nonneg", "Fs.C03.sweep_conservation", "Fs.C03.accumulate_conservation"],
          gen=lambda r, t: gen_any_ops(r, t, acc=True), oracles=[oracle.c03], sections={"acc", "acc_overloads_agree"},
          nontrivial=has_pits_or_multi, tags=tags_flow,
          rule="routed graphs of all operator families x scalar/array sources (negative values included); exact-rational recurrence and conservation on the implementation's doubles; non-trivial = graph has a confluence or multiple receivers",
          trusted_base=FLOW_TB + ["accumulation theorems are over exact arithmetic (commutative ring); rounding is covered only by the bit-exact correspondence and the rational oracle with an error bound"])
-register("C04", lean_modules=['FsModel.Router'], theorems=['Fs.Router.route_spec'], gen=gen_single, oracles=[oracle.c04], sections={"recv", "rdist", "rweight", "rcount"}, nontrivial=has_pits_or_multi, tags=tags_flow,
+register("C04", lean_modules=['FsModel.Router', 'FsProofs.Properties.C04'], theorems=['Fs.Router.route_spec', 'Fs.C04.rows', 'Fs.C04.terminal_row', 'Fs.C04.routed_row', 'Fs.C04.recv_lower'], gen=gen_single, oracles=[oracle.c04], sections={"recv", "rdist", "rweight", "rcount"}, nontrivial=has_pits_or_multi, tags=tags_flow,
          rule="single router (sequential and parallel), raw and flooded fields; non-trivial = at least two nodes share a receiver", trusted_base=FLOW_TB)
 register("C05", lean_modules=["FsProofs.Properties.C05"], theorems=["Fs.C05.terminal_row", "Fs.C05.pit_row", "Fs.C05.receivers_row", "Fs.C05.weights_spec", "Fs.C05.foldl_max_spec"],
          gen=gen_multi, oracles=[oracle.c05], cause=oracle.c05_cause, sections={"recv", "rdist", "rweight", "rcount"},
          nontrivial=has_pits_or_multi, tags=tags_flow,
          rule="multi router x exponents {0, .5, 1, 1.1, 2, 8}, exponent changed between updates, flooded fields; non-trivial = some node has several receivers",
          trusted_base=FLOW_TB + ["weights theorem is over an ordered field with an abstract pow satisfying pow 1 = 1, 0 <= pow x"])
-register("C06", lean_modules=['FsModel.Donors', 'FsModel.Dfs', 'FsProofs.DfsPerm', 'FsModel.Bfs'], theorems=['Fs.Donors.mem_donors', 'Fs.Donors.donors_nodup', 'Fs.Dfs.dfs_recv_before', 'Fs.Dfs.dfs_perm', 'Fs.Bfs.next_level_receivers'], gen=lambda r, t: gen_any_ops(r, t), oracles=[oracle.c06], sections={"dcount", "donors", "dfs", "bfs", "levels", "rcount", "recv"},
+register("C06", lean_modules=['FsModel.Donors', 'FsModel.Dfs', 'FsProofs.DfsPerm', 'FsModel.Bfs', 'FsProofs.Properties.C06', 'FsProofs.Properties.C06Bfs', 'FsProofs.Properties.C06Kahn', 'FsProofs.Properties.C06Graphs'],
+         theorems=['Fs.C06.single_donors_inverse', 'Fs.C06.single_dfs', 'Fs.C06.singleRouter_bfs', 'Fs.C06.multi_donors_inverse', 'Fs.C06.multi_dfs', 'Fs.C06.multi_bfs',
+                   'Fs.C06.mem_donors', 'Fs.C06.mem_donors_ne', 'Fs.C06.donors_nodup', 'Fs.C06.dfs_perm', 'Fs.C06.dfs_recv_before', 'Fs.C06.single_bfs', 'Fs.C06.bfs_levels_spec', 'Fs.C06.kahn_spec',
+                   'Fs.C06.singleRouter_graph', 'Fs.C06.multi_kdag', 'Fs.C06.multi_dag',
+                   'Fs.Donors.mem_donors', 'Fs.Donors.donors_nodup', 'Fs.Dfs.dfs_recv_before', 'Fs.Dfs.dfs_perm', 'Fs.Bfs.next_level_receivers'], gen=lambda r, t: gen_any_ops(r, t), oracles=[oracle.c06], sections={"dcount", "donors", "dfs", "bfs", "levels", "rcount", "recv"},
          nontrivial=has_pits_or_multi, tags=tags_flow,
          rule="all operator families incl. spanning-tree re-routing, masks, repeated updates on one object; snapshots' tables checked too", trusted_base=FLOW_TB)
-register("C19", lean_modules=['FsModel.Basins'], theorems=['Fs.Basins.run_block', 'Fs.Basins.block_labels_agree'], gen=lambda r, t: gen_any_ops(r, t, basins=True), oracles=[oracle.c19], sections={"basins", "outlets", "pits"},
+register("C19", lean_modules=['FsModel.Basins', 'FsProofs.Properties.C19'], theorems=['Fs.C19.basins_spec', 'Fs.C19.run_blocks', 'Fs.Basins.run_block', 'Fs.Basins.block_labels_agree'], gen=lambda r, t: gen_any_ops(r, t, basins=True), oracles=[oracle.c19], sections={"basins", "outlets", "pits"},
          nontrivial=has_pits_or_multi, tags=tags_flow,
          rule="basins/outlets/pits after every single-direction sequence, masks, carve/basic re-routing, repeated calls", trusted_base=FLOW_TB)
 
@@ -429,7 +444,7 @@ register("C07", lean_modules=["FsModel.U64", "FsProofs.Properties.C07"],
          sections=GRID_SECTIONS, nontrivial=grid_nontrivial, tags=tags_grid,
          rule="random rasters/profiles (3 connectivities, border mixes incl. looped, size-2 looped axes, anisotropic spacing, cache on/off), every accessor for every node in shuffled order with repeats; thorough adds all 4^4 border mixes x shapes; non-trivial = grid accepted and queried",
          trusted_base=GRID_TB)
-register("C17", lean_modules=['FsModel.Iter'], theorems=['Fs.Iter.skipFwd_stop'], gen=lambda r, t: gen_grids(r, t) + gen_grids_exhaustive(r, t), oracles=[oracle.c17],
+register("C17", lean_modules=['FsModel.Iter', 'FsProofs.Properties.C17'], theorems=['Fs.C17.prio_order', 'Fs.C17.paint_spec', 'Fs.C17.rasterStatus_ok_iff', 'Fs.C17.rasterStatus_error_iff', 'Fs.C17.rasterStatus_error_kind', 'Fs.C17.rasterStatus_ok', 'Fs.C17.rasterStatus_ok_distinct', 'Fs.C17.profileStatus_ok_iff', 'Fs.C17.profileStatus_error_iff', 'Fs.C17.profileStatus_ok', 'Fs.C17.sortKeys_perm', 'Fs.C17.iterFwd_eq', 'Fs.C17.iterRev_eq', 'Fs.Iter.skipFwd_stop'], gen=lambda r, t: gen_grids(r, t) + gen_grids_exhaustive(r, t), oracles=[oracle.c17],
          sections={"grid", "status", "iter", "base", "size"}, nontrivial=lambda si: True, tags=tags_grid,
          rule="all 4^4 raster / 4^2 profile border mixes on small shapes (exhaustive) + random grids with override maps + malformed stream (asymmetric loops, looped/out-of-range overrides); status array, iteration in both directions for every filter, default base levels",
          trusted_base=GRID_TB)
@@ -577,23 +592,23 @@ def _lvl(pid, level, text, technique=None, note=None):
 
 
 _lvl("C01", "proof",
-     "Theorems for all sizes/inputs about the model's flood, router and tilt components: after the priority flood every closed non-seed node has a strictly lower closed unmasked neighbour (pflood_parent), every node unmasked-connected to a seed is closed (pflood_complete), strictly descending receivers make 'flows to' well-founded (step_wf: no cycle, finite paths), composition flood+single router (C01_pflood_single), strict descent after the spanning-tree tilt pass (tilt_descends). The spanning-tree re-routing itself (connect/Kruskal/Boruvka/orient/carve/basic) is modelled and tied by correspondence + oracle only.",
-     "Lean 4 invariant proofs (flood loop, router scan, tilt) + bit-exact differential correspondence + reachability oracle")
+     "END-TO-END theorem on the executed composition priority flood + single-direction router (Fs.C01.C01_pflood_singleRouter, any grid size / topology handed over by the grid, any elevations, masks and base-level sets, sequential or multi-threaded router variant; assumptions: strict-weak-order laws of the comparison, x < nextUp x, slope towards a lower neighbour above -DBL_MAX, neighbour lists in range and symmetric, base-level list duplicate-free): (1) base-level and masked nodes are their own receiver, (2) every proper step goes to an unmasked neighbour with strictly lower RETURNED elevation, (3) every node connected through unmasked neighbours to an unmasked base level reaches a base-level node after finitely many receiver steps and stops there, (4) no cycle. It rests on pflood_terminates (potential-function proof that the flood empties both queues within its fuel n+1), pflood_parent / pflood_complete (flood invariants), C04.routed_row (router scan) and C06.singleRouter_graph. Also step_wf (descent => well-founded) and tilt_descends (strict descent after the spanning-tree tilt pass). The flood + multi router composition and the spanning-tree re-routing (connect/Kruskal/Boruvka/orient/carve/basic) are modelled statement by statement and tied by correspondence + reachability oracle only (their MST part: see C15).",
+     "Lean 4 end-to-end theorem on the executed flood+router (loop invariants, potential-function termination, composition) + bit-exact differential correspondence + reachability oracle")
 _lvl("C02", "proof",
      "Theorems about the executed priority flood Fs.Flow.pflood (any grid size, any elevations over a linear order with strictly increasing monotone nextUp): pflood_ge_input (never below the input), pflood_fixed (bit-identical at base-level and masked nodes), pflood_ge_spill (every closed node is reached from an unmasked base level by an unmasked-neighbour path whose input elevations never exceed its filled elevation: f >= spill level), pflood_le_spill (for every such path and every bound v on the input along it, f <= v raised by n+2 floating-point increments: f <= spill + (n+2) ulps). They are obtained from the invariant proofs on the ghost-instrumented loop (Fs.UB) through an erasure theorem (run_erase, ubInit_erase: forgetting the ghost counters turns each instrumented step into the executed step). 'closed' = reached by the flood; that all unmasked-connected nodes are closed when the loop exits by itself is pflood_complete. The spanning-tree variants (Kruskal/Boruvka x basic/carve) are modelled statement by statement, compared bit for bit and checked by the independent Bellman minimax oracle (two-sided bound, agreement of all variants) - not proved.",
      "Lean 4 loop-invariant proofs (ghost-instrumented flood + erasure to the executed definitions) + bit-exact correspondence + independent minimax-spill oracle")
 _lvl("C03", "proof",
-     "Theorems about the executed definitions Fs.Flow.accStep/accumulate instantiated over an arbitrary field: accStep_get (one node of the sweep adds source*area to its own entry and value*weight to each proper receiver slot), sweep_recurrence / accumulate_recurrence (for every graph and every sweep order - no node after one of its proper receivers, which C06 provides - every entry equals source*area plus the accumulated values of its donors weighted by their partition fractions; any graph size, single or multiple receivers), contrib_nonneg. The Float instance of the same definitions is compared bit for bit with all four C++ overloads; conservation over terminal nodes is checked by the exact-rational oracle (its proof from the recurrence needs the weight-sum property of C05 and is not yet written).",
-     "Lean 4 induction over the sweep (Mathlib List.sum) on the executed definitions + bit-exact correspondence + exact-rational recurrence/conservation oracle")
+     "Theorems about the executed definitions Fs.Flow.accStep/accumulate instantiated over an arbitrary field: accStep_get, sweep_recurrence / accumulate_recurrence (for every graph and every sweep order - no node after one of its proper receivers, which C06 proves for the executed orders - every entry equals source*area plus the accumulated values of its donors weighted by their partition fractions; any size, single or multiple receivers), sweep_conservation / accumulate_conservation (if every non-terminal node's weights sum to one and it is not its own receiver - C05 - the sum over terminal nodes equals the source integrated over the grid), contrib_nonneg (non-negative source and weights => value >= local contribution). The Float instance of the same definitions is compared bit for bit with all four C++ overloads (which must agree with each other); rounding is covered by the exact-rational oracle with an error bound.",
+     "Lean 4 induction over the sweep + sum-exchange conservation proof (Mathlib List.sum) on the executed definitions + bit-exact correspondence of the four overloads + exact-rational oracle")
 _lvl("C04", "proof",
-     "route_spec (all neighbour lists, all elevations over any strict weak order): the router scan keeps the node iff no unmasked neighbour is strictly lower, else returns an unmasked strictly lower neighbour of maximal slope with its distance. Base/masked rows, weights and the parallel variant are model definitions tied by correspondence; oracle recomputes slopes on the implementation's output.",
-     "Lean 4 fold-invariant proof of the router scan + bit-exact correspondence + slope oracle")
+     "END-TO-END theorems on the executed Fs.Flow.singleRouter (sequential and multi-threaded variant, any topology): rows (each node has exactly one receiver, weight one), terminal_row (base-level and masked nodes are their own receiver at distance zero), routed_row (every other node satisfies RoutedSpec: own receiver exactly when no unmasked neighbour is strictly lower, otherwise an unmasked strictly lower neighbour with its grid distance whose slope no other lower unmasked neighbour exceeds), recv_lower; built on route_spec (fold invariant of the neighbour scan over any strict weak order). Oracle recomputes slopes on the implementation's output.",
+     "Lean 4 fold-invariant proof of the router scan lifted to the executed router + bit-exact correspondence + slope oracle")
 _lvl("C05", "proof",
      "Theorems about the executed definitions Fs.Flow.multiRow / multiWeights: terminal_row, pit_row, receivers_row (for ANY scalar instance: base-level/masked nodes and nodes without a strictly lower unmasked neighbour are their own single receiver; otherwise the receivers are exactly the unmasked strictly lower neighbours, once per neighbour slot, in neighbour order, with the grid distances), weights_spec (over any linearly ordered field and an abstract pow with pow 1 p = 1 and 0 <= pow x p: for positive slopes the weights are non-negative, sum to one and equal pow(slope/max slope, p) / c for one positive c, i.e. are proportional to slope^p for a multiplicative pow). Positivity of pow for tiny arguments is deliberately not assumed (D3). The Float instance is compared bit for bit; exponent changes between updates and flooded fields are in the generator.",
      "Lean 4 proofs on the executed definitions (list lemmas; ordered-field arithmetic with abstract pow) + bit-exact correspondence + exact-rational weight oracle")
 _lvl("C06", "proof",
-     "Theorems on the executed components: donor table = inverse of the receiver function, without duplicates (mem_donors, donors_nodup); bottom-up order places every node after its receiver (dfs_recv_before) and is a permutation of all nodes on a forest (dfs_perm); every node of the next breadth-first level has all receivers in earlier levels (next_level_receivers). Top-down (Kahn) order and multi-router donors are tied by correspondence + oracle.",
-     "Lean 4 stack/queue invariant proofs + bit-exact correspondence + table-consistency oracle")
+     "END-TO-END theorems on the graphs the executed routers build (any topology in range, any elevations over a strict weak order): single router (both variants): single_donors_inverse (for distinct nodes the donor table is exactly the inverse of the receiver table; donors_nodup), single_dfs (bottom-up order is a permutation of all nodes, every node after its receiver), singleRouter_bfs (breadth-first order is a permutation in non-empty levels, every receiver in a strictly earlier level); the same for ANY graph assembled from a receiver forest (SingleGraph: mem_donors, dfs_perm, dfs_recv_before, single_bfs) - which is how the spanning-tree resolver rebuilds its tables; multi router: multi_donors_inverse (inverse with multiplicity: d is listed among the donors of r once per slot of d's row equal to r), multi_dfs (Kahn-style top-down order reversed: permutation, every node after each of its receivers; kahn_spec), multi_bfs (bfs_levels_spec). Snapshot copies are C16. That the spanning-tree resolver's receiver table is a forest is tied by correspondence + oracle (not proved).",
+     "Lean 4 stack/queue/Kahn-counter invariant proofs, composed with the router theorems, on the executed definitions + bit-exact correspondence + table-consistency oracle")
 _lvl("C07", "proof",
      "Theorems about the executed grid model with the tables regenerated from raster_grid.hpp / profile_grid.hpp on every run: rasterNbIdx_eq_geom (for EVERY raster with >= 2 nodes per axis and < 2^63 nodes, every connectivity, every loop flags and every node, the neighbour indices computed through node code, count table, offset/argument tables and size_t wrap-around arithmetic are exactly the row-major indices of the geometric one-step neighbours - stay inside, wrap only across looped borders, drop otherwise - in the same order), codeOffsets_eq_geom (offsets), count_eq_length + count_table_spec (108-case decide over the regenerated count tables: count accessor = list length), codedTuples_spec / offs_valid (decide over the regenerated argument tuples and offset lists), profileNbIdx_eq_geom (profile grid). Distances, statuses of neighbours, the struct/(row,col) views, symmetry and cache transparency are model definitions or oracle checks tied by the every-accessor correspondence (cache on/off, shuffled and repeated queries, out-parameter overloads with reused buffers).",
      "Lean 4 proof over all shapes (axis lemma + omega; decide only over regenerated tables) + translator + every-accessor correspondence + geometric oracle")
@@ -604,11 +619,11 @@ _lvl("C09", "proof",
      "The model's update_routes is a pure function of (operators with their parameters, topology, mask, base levels, elevation) by construction; the only input through which the history of the C++ object can reach it is the iteration order of the hash set of base levels, handed over by the harness as a list. Theorems on the executed definitions: pfInit_perm / pflood_perm - for any two base-level lists that are permutations of each other the flood starts from the same state (queue order included, thanks to the (elevation, index) ordering of the queue) and returns the same elevations, for every grid and elevation field over a linear order; all other operators use the base levels only through membership. Correspondence: random histories on one object vs a fresh object vs the model, every observable bit for bit, input array never written.",
      "Lean 4 permutation-invariance proof on the executed flood initialisation + history-vs-fresh differential testing against the pure model")
 _lvl("C17", "proof",
-     "Theorem on the executed skip loop (skipFwd_stop: it stops at the first index satisfying the filter or at size). Status composition is executed by the model from the regenerated enum/precedence constants and compared exhaustively over all 4^4 / 4^2 border mixes on small shapes, plus malformed override maps with error kinds; iteration in both directions compared for every filter.",
-     "Lean 4 iterator theorem + translator constants + exhaustive border-mix correspondence")
+     "Theorems on the executed grid model (constants regenerated from the source): prio_order (fixed value > fixed gradient > looped > core, decide over the regenerated precedences), paint_spec (for every raster with >= 2 nodes per axis: core strictly inside, the border's status on each non-corner border node, at each corner the one of the two meeting statuses with the larger precedence), rasterStatus_ok_iff / _error_iff / _error_kind / rasterStatus_ok / rasterStatus_ok_distinct (construction succeeds iff looped borders are symmetric and no override is out of range, looped, or on a looped node; which error kind the first offending entry yields; otherwise the array is the painted array with the overrides applied and looped appears exactly on the looped borders), the same for the profile grid (profileStatus_*), sortKeys_perm / sorted (std::map order), iterFwd_eq / iterRev_eq (iteration filtered by any predicate yields exactly (range size).filter p, resp. its reverse, for every size and predicate; built on skipFwd_stop). Default base levels = fixed-value nodes is a definition of the driver. Compared exhaustively over all 4^4 / 4^2 border mixes on small shapes, plus malformed override maps with error kinds, iteration in both directions for every filter.",
+     "Lean 4 proofs on the executed status/iteration model (omega, decide over regenerated constants, list induction) + exhaustive border-mix correspondence")
 _lvl("C19", "proof",
-     "Theorems on the executed labelling sweep: within the block of the bottom-up order that starts at an outlet, every node gets the outlet's label and labels are numbered in order (run_block, block_labels_agree). Block structure of the order, pits and masked labels are tied by correspondence + oracle.",
-     "Lean 4 fold proofs of the labelling sweep + bit-exact correspondence + partition oracle")
+     "END-TO-END theorem on the executed Fs.Flow.basins over any single-direction graph assembled from a receiver forest (C06.SingleGraph: router output or spanning-tree resolver output) whose unmasked nodes never drain into masked ones (basins_spec): masked nodes get the reserved label; every unmasked node has the label of its receiver; the outlets are exactly the unmasked self-receivers, without duplicates, numbered consecutively from zero in bottom-up order; every unmasked node's label is the index of the outlet it drains to (two unmasked nodes share a label iff they drain to the same outlet; number of distinct labels = number of unmasked outlets); pits = outlets that are not base levels. Built on run_block / block_labels_agree and the block structure of the bottom-up order (dfs_blocks).",
+     "Lean 4 fold proofs of the labelling sweep composed with the block structure of the bottom-up order + bit-exact correspondence + partition oracle")
 
 
 # ----------------------------------------------------------------------------- C20
@@ -820,10 +835,13 @@ def bg_nontrivial(si):
     return any(c.cmd == "bgraph" and len(c.O.get("bg_tree", [])) >= 1 for c in si.calls)
 
 
-register("C15", lean_modules=["FsProofs.Properties.C15"],
-         theorems=["Fs.C15.kruskal_sim", "Fs.C15.kruskal_spanning", "Fs.C15.kruskal_forest", "Fs.Kruskal.kruskal_agree", "Fs.Kruskal.kruskal_forest"],
+register("C15", lean_modules=["FsProofs.Properties.C15", "FsProofs.Properties.C15Min", "FsProofs.Properties.C15Cert"],
+         theorems=["Fs.C15.certOk_sound", "Fs.C15.certOk_kruskal", "Fs.C15.kruskal_exec_min_weight", "Fs.C15.kruskal_exec_is_spanning_forest", "Fs.C15.kruskal_min_weight", "Fs.C15.kruskal_minimum_spanning_forest", "Fs.C15.validPerm_sorted", "Fs.C15.exchange",
+                   "Fs.C15.kruskal_sim", "Fs.C15.kruskal_spanning", "Fs.C15.kruskal_forest", "Fs.Kruskal.kruskal_agree", "Fs.Kruskal.kruskal_forest"],
          gen=gen_bgraph, oracles=[oracle.c15], nontrivial=bg_nontrivial, tags=bg_tags,
          sections={"bg_outlets", "bg_edges", "bg_tree"},
+         model_certs={"bg_cert_impl": ("1", "tree_minimum_weight_certificate", "the Lean certificate checker (certImpl, soundness theorem Fs.C15.certImpl_sound) rejects the tree REPORTED BY THE IMPLEMENTATION as a minimum-weight spanning forest of the root component of the reported edge set"),
+                      "bg_cert": ("1", "tree_minimum_weight_certificate", "the Lean certificate checker (certOk, soundness theorem Fs.C15.certOk_sound) rejects the raw tree of this method as a minimum-weight spanning forest of the lowest-pass edges")},
          rule="single-direction graphs on random grids (+ a channel family giving basins of degree > 16), heavy ties, masks, arbitrary base levels; basin graph built with Kruskal and Boruvka, repeated updates on the same basin-graph object; edges, passes, tree compared exactly with the Lean model; oracle: independent adjacency scan + exact Kruskal weight; non-trivial = tree has at least one edge",
          trusted_base=FLOW_TB + ["std::sort tie order of Kruskal is recomputed by the harness with the same comparator and handed to the model, which validates it is a weight-sorted permutation",
                                  "m_max_low_degree regenerated from basin_graph.hpp"])
@@ -888,14 +906,16 @@ def mesh_tags(si):
 
 register("C18", gen=gen_meshes, oracles=[oracle.c18], nontrivial=grid_nontrivial, tags=mesh_tags,
          sections={"grid", "size", "status", "area", "area_views_agree", "q", "iter", "base"},
-         lean_modules=["FsModel.Mesh", "FsProofs.Area"],
-         theorems=["Fs.Mesh.edgeMap_spec", "Fs.Mesh.insertEdge_unique", "tri_area_partition"],
+         lean_modules=["FsModel.Mesh", "FsProofs.Area", "FsProofs.Properties.C18"],
+         theorems=["Fs.C18.mem_nbrs", "Fs.C18.nbrs_symm", "Fs.C18.nbrs_nodup", "Fs.C18.count_spec", "Fs.C18.isBoundary_iff", "Fs.C18.isBoundary_iff_tri", "Fs.C18.statusDefault_spec",
+                   "Fs.C18.binAreas_sum", "Fs.C18.areas_sum", "Fs.C18.areas_sum_geom", "Fs.C18.areas_sum_exactSqrt", "Fs.C18.dist_symm", "Fs.C18.dist_withSqrt",
+                   "Fs.Mesh.edgeMap_spec", "Fs.Mesh.insertEdge_unique", "tri_area_partition"],
          rule="jittered / flipped lattices with holes, isolated nodes, random vertex order inside triangles and random node relabelling; default, map and array status incl. malformed ones (looped entry, out-of-range index, wrong length); neighbours compared as index-sorted lists, status and areas bit for bit; oracle recomputes edges, boundary and exact circumcentric shares in rationals; non-trivial = mesh accepted and queried",
          trusted_base=["neighbour storage order of the mesh (unordered_map iteration) is implementation-defined: lists are compared sorted by index",
                        "area theorem is over an arbitrary field (exact arithmetic); the Float instance of the same definitions is compared bit for bit with the C++"])
 _lvl("C18", "proof",
-     "Theorems about the definitions the model executes: edgeMap_spec (the orientation-insensitive edge map built from the triangles holds exactly the triangle edges, each once - so neighbours are exactly the nodes sharing a triangle edge, without duplicates, and the boundary test counts triangles per edge), tri_area_partition (over any field: the three circumcentric shares computed by triShares/areaSquare sum to the triangle's area, hence node areas sum to the covered area). Status rules, distances and the bincount accumulation order are model definitions tied by correspondence; oracle recomputes everything from the triangles in exact rationals.",
-     "Lean 4 proofs (list induction; field_simp + linear_combination) + bit-exact correspondence + exact-rational oracle")
+     "Theorems about the executed mesh model (Fs.Mesh / Fs.MeshGrid): mem_nbrs, nbrs_symm, nbrs_nodup (two nodes are neighbours exactly when they share a triangle edge; symmetric; no duplicates for non-degenerate triangles), count_spec / isBoundary_iff / isBoundary_iff_tri / statusDefault_spec (the stored count of an edge is the number of triangles it belongs to; a node gets fixed-value by default exactly when it lies on an edge belonging to a single triangle), binAreas_sum / areas_sum / areas_sum_geom / areas_sum_exactSqrt (exact field arithmetic: the bincount of the circumcentric shares sums to the total triangle area; areaSq_eq_cross: the model's areaSquare is the squared shoelace area), dist_symm / dist_withSqrt (distance = sqrt of the squared coordinate differences, symmetric), edgeMap_spec, tri_area_partition. Outside the theorems: rounding of sqrt and of the sums, the max(.., DBL_MIN) clamp and the isolated-node replacement, and the unordered_map iteration order (lists compared sorted). The Float instance is compared bit for bit; oracle recomputes everything in exact rationals.",
+     "Lean 4 proofs on the executed mesh model (list induction; field_simp + linear_combination) + bit-exact correspondence + exact-rational oracle")
 
 
 # ----------------------------------------------------------------------------- C12 / C13
@@ -958,11 +978,11 @@ def spl_nontrivial(si):
 SPL_TB = FLOW_TB + ["std::pow of the C++ side and Float.pow of the Lean runtime are the same libm function (bit-identical results observed on every compared scenario)",
                     "SPL theorems are over an ordered field (exact arithmetic); rounding is covered by the bit-exact correspondence and the oracle's documented allowance",
                     "the m_linear classification expression and the Newton exit test are regenerated from spl.hpp by translate.py"]
-register("C12", lean_modules=["FsProofs.Properties.C12"], theorems=["Fs.C12.nodeStep_skip", "Fs.C12.nodeStep_linear", "Fs.C12.spl_floor", "Fs.C12.spl_nonneg", "Fs.C12.fold_linear", "Fs.C12.contribs_nonneg"],
+register("C12", lean_modules=["FsProofs.Properties.C12", "FsProofs.Properties.C13"], theorems=["Fs.C13.erode_zero", "Fs.C13.erode_floor", "Fs.C13.erode_nonneg", "Fs.C13.sweep_final", "Fs.C13.erode_look", "Fs.C12.nodeStep_skip", "Fs.C12.nodeStep_linear", "Fs.C12.spl_floor", "Fs.C12.spl_nonneg", "Fs.C12.fold_linear", "Fs.C12.contribs_nonneg"],
          gen=gen_spl, oracles=[oracle.c12], cause=oracle.spl_cause, nontrivial=spl_nontrivial, tags=spl_tags,
          sections={"erosion", "ncorr", "spl"},
          rule="routed graphs (single / parallel single / multi, pflood or spanning-tree resolved or unresolved, masks, interior base levels) x K scalar/array (0 .. 1, x0.1..3 variation) x m in {.3,.5,1} x n in {.5,.8,1,1.5,2,4} x tol x dt in {0,1,10,100,1e4,1e8} x random areas up to 1e6; 1-2 erode() calls per update on one eroder object, elevation = routed field or another field; non-trivial = some erosion is non-zero")
-register("C13", lean_modules=["FsProofs.Properties.C12"], theorems=["Fs.C12.spl_residual", "Fs.C12.nodeStep_linear", "Fs.C12.fold_linear", "Fs.Spl.solve_residual"],
+register("C13", lean_modules=["FsProofs.Properties.C12", "FsProofs.Properties.C13"], theorems=["Fs.C13.erode_residual", "Fs.C13.erode_newton_residual", "Fs.C13.spl_newton_residual", "Fs.C13.newton_exit", "Fs.C13.newton_none_iff", "Fs.C13.nodeStep_newton_single", "Fs.C13.sweep_final", "Fs.C12.spl_residual", "Fs.C12.nodeStep_linear", "Fs.C12.fold_linear", "Fs.Spl.solve_residual"],
          gen=gen_spl, oracles=[oracle.c13], cause=oracle.spl_cause, nontrivial=spl_nontrivial, tags=spl_tags,
          sections={"erosion", "ncorr", "spl"},
          rule="same scenario family as C12; oracle evaluates the residual of the backward-Euler equation at every non-limited node (double arithmetic with a stated bound: tolerance + 64 eps x sensitivity-weighted magnitudes); non-trivial = some erosion is non-zero")
@@ -1027,8 +1047,9 @@ def adi_tags(si):
     return sorted(set(t))
 
 
-register("C14", lean_modules=["FsProofs.Properties.C14"],
-         theorems=["Fs.C14.thomas_solves", "Fs.C14.thomas_some", "Fs.C14.solveRow_eq", "Fs.C14.solveRow_isSome", "Fs.C14.solveRow_equations",
+register("C14", lean_modules=["FsProofs.Properties.C14", "FsProofs.Properties.C14E2E"],
+         theorems=["Fs.C14.erode_spec", "Fs.C14.erode_border_zero", "Fs.C14.halfStep_spec", "Fs.C14.halfStep_ne_none", "Fs.C14.erode_isSome_array", "Fs.C14.scalar_eq_uniform", "Fs.C14.erode_linear", "Fs.C14.thomas_linear",
+                   "Fs.C14.thomas_solves", "Fs.C14.thomas_some", "Fs.C14.solveRow_eq", "Fs.C14.solveRow_isSome", "Fs.C14.solveRow_equations",
                    "Fs.C14.adi_pivots_ne_zero", "Fs.C14.factorsScalar_mid", "Fs.C14.factorsCol_mid", "Fs.C14.factorsRow_mid", "Fs.C14.factorsCol_nonneg"],
          gen=gen_adi, oracles=[oracle.c14], nontrivial=adi_nontrivial, tags=adi_tags,
          sections={"adi", "grid"},
